@@ -760,10 +760,12 @@ func (g *gen) wantH2(prop string, m *Message, f *Field) bool {
 	if f.Card == "map" || (f.Card == "repeated" && f.Kind != "message") {
 		return false
 	}
-	if prop == "C01" && g.tier != "thorough" && (f.Card != "singular" || f.Kind == "message") {
-		// a round trip re-reads every populated field from a buffer with symbolic offsets: each
-		// of the ~25 equality assertions per path is a solver query (minutes per harness); the
-		// quick tier keeps one varint, one fixed and one length-delimited singular field
+	if prop == "C01" {
+		// a round trip re-reads every populated field from a buffer whose offsets are symbolic
+		// (the active field's encoded length): each of the ~25..100 equality assertions per
+		// path is a separate solver query - 15+ minutes per harness (measured). Interference
+		// with populated neighbours is covered for C01 by _unknownFields_h2 and __library
+		// (fully populated messages, concrete offsets) and per field by C02/C04's H2 family.
 		return false
 	}
 	if g.h2seen == nil {
@@ -780,9 +782,13 @@ func (g *gen) wantH2(prop string, m *Message, f *Field) bool {
 func (g *gen) harnessPerField(prop string, m *Message, f *Field, h2 bool) {
 	n := m.GoName
 	h2 = h2 && g.wantH2(prop, m, f)
+	depth := 1
+	if prop == "C01" && f.Card == "map" && f.Val.Kind == "message" {
+		depth = 0 // map values: empty or fixed; the value type has its own round-trip harnesses
+	}
 	g.p("func VH_%s_%s_%s() {", prop, n, f.GoName)
 	g.p("\tx := &%s{}", n)
-	g.p("\tvhBuild_%s_%s(x, \"a\", 1)", n, f.GoName)
+	g.p("\tvhBuild_%s_%s(x, \"a\", %d)", n, f.GoName, depth)
 	g.p("\tvh%s_%s(x%s)", prop, n, extraArg(prop, "[]byte{vhU8(\"pre0\"), vhU8(\"pre1\")}"))
 	g.p("}")
 	g.p("")
